@@ -102,7 +102,8 @@ PROPS = {
             "Alive about self ignored; reset puts the incarnation back to 0": "theorem (full): alive_about_self_is_ignored, reset_restarts_incarnation",
             "Down about self: Defunct unless a differing, winning renewed identity exists": "theorem (full): no_rejoin_without_winning_identity, down_without_renewal_is_defunct, bump_renews_to_a_winner",
             "incarnation never decreases while an identity is in use (whole histories)": "theorem (full, any history of public calls without change_identity/reuse_down_identity, any inputs and RNG; from any state): C10H.incarnation_never_decreases_step, C10H.same_identity_incarnation_monotone, C10H.incarnation_monotone_over_histories (invariant IncInv through every model function, Proofs/IncInv.lean)",
-            "never fabricates incarnations of others; rejoin gossips Down(old)": "partial: checked by search (oracle with a ghost 'told' map) and correspondence, no whole-history theorem yet",
+            "never fabricates incarnations of others": "theorem (full, whole histories, any codec): C10H.nothing_fabricated_step, C10H.nothing_fabricated_over_histories — every member record, the probe target and every pending update (the bytes of an encoded member) stay within the incarnations the inputs carried (invariant TellInv, Proofs/TellInv.lean); that a datagram's member section is made of backlog entries (C15) or listed active members (C07.feed_candidates) ties this to what is sent",
+            "rejoin gossips Down(old)": "theorem per call: C05.told_down_renews_identity, C18 / C10 lemmas on change_identity (the Down update about the previous identity is enqueued before the gossip); over histories: search and correspondence",
         },
         RULE_HIST + "search: per-call oracle over the boundary incarnations 0/1/65534/65535, suspicions older/equal/newer than own, all four renew policies (none, bump, same, lose).",
         ["histories stop being judged after an Encode error (header larger than max_packet_size)"],
